@@ -4,3 +4,4 @@ pub mod c14;
 pub mod c12;
 pub mod c01;
 pub mod c02;
+pub mod c03;
